@@ -184,7 +184,11 @@ impl Encoder<Message<(Response<()>, BodySize)>> for Codec {
             }
 
             Message::Chunk(Some(bytes)) => {
-                self.encoder.encode_chunk(bytes.as_ref(), dst)?;
+                // an empty chunk carries no data; the chunked encoder would take it for the end of
+                // the body and drop everything that follows
+                if !bytes.is_empty() {
+                    self.encoder.encode_chunk(bytes.as_ref(), dst)?;
+                }
             }
 
             Message::Chunk(None) => {
